@@ -2,6 +2,7 @@ package unmarshal
 
 import (
 	"bytes"
+	"encoding/json"
 	"fmt"
 	"github.com/go-faster/city"
 	"github.com/go-faster/jx"
@@ -243,10 +244,17 @@ func (p *pushRequestDec) decodeStreamEntry(d *jx.Decoder) error {
 var DecodePushRequestStringV2 = Build(
 	withLogsParser(func(ctx *ParserCtx) iLogsParser { return &pushRequestDec{ctx: ctx} }))
 
+// jsonString returns s as a JSON string literal. strconv.Quote is not a
+// substitute: its \x.., \a, \v escapes are not JSON.
+func jsonString(s string) string {
+	b, _ := json.Marshal(s)
+	return string(b)
+}
+
 func encodeLabels(lbls [][]string) string {
 	arrLbls := make([]string, len(lbls))
 	for i, l := range lbls {
-		arrLbls[i] = fmt.Sprintf("%s:%s", strconv.Quote(l[0]), strconv.Quote(l[1]))
+		arrLbls[i] = fmt.Sprintf("%s:%s", jsonString(l[0]), jsonString(l[1]))
 	}
 	return fmt.Sprintf("{%s}", strings.Join(arrLbls, ","))
 }
